@@ -145,9 +145,16 @@ def is_exact(x):
     return isinstance(x, (int, F)) and not isinstance(x, bool)
 
 
+def finite(x):
+    import math
+    return is_exact(x) or (isinstance(x, float) and math.isfinite(x) and x != 0.0)
+
+
 def close(a, b, exact=True):
+    if a == b:
+        return True
     if exact and is_exact(a) and is_exact(b):
-        return a == b
+        return False
     a, b = float(a), float(b)
     return abs(a - b) <= 1e-9 * max(abs(a), abs(b), 1e-300)
 
@@ -352,6 +359,9 @@ class World:
             self.fail("base-units:result-not-resolvable", f"{d} -> {b}: {type(e).__name__}")
             return
         ru, rb = ucd(ru), ucd(rb)
+        if not exact and not (finite(f) and finite(fu) and finite(fb)):
+            self.count("float-range")      # overflow / underflow of float factors: nothing to say about the value
+            fu = fb = f = 1
         if sysname is None:
             if b != ru or not close(f, fu, exact):
                 self.fail("base-units:no-system-not-root", f"no system: {d} -> {f}, {b}; root units are {fu}, {ru}")
@@ -605,8 +615,8 @@ class World:
                     back = self.call(u.Quantity(r[1], mkuc(u, r[2])).to, mkuc(u, d))
                     if back[0] != "ok" or not close(back[1].magnitude, m, exact):
                         self.fail("to-base-units:value", f"{m} {d} -> {r[1]} {r[2]} converts back to {back[1].magnitude if back[0] == 'ok' else back[1]}")
-                    again = self.call(u.Quantity(r[1], mkuc(u, r[2])).to_base_units)
-                    if again[0] != "ok" or ucd(again[1]._units) != r[2] or not close(again[1].magnitude, r[1], exact):
+                    again = self.call(u._get_base_units, mkuc(u, r[2]), False, eff)       # cache-free
+                    if again[0] != "ok" or ucd(again[1][1]) != r[2] or not close(again[1][0], 1, exact):
                         self.fail("to-base-units:idempotence", f"{r[1]} {r[2]} is not a fixed point of to_base_units")
             elif not (r[1] == "XDim" and eff in u._systems and self.rule_broken(eff)) and r[1] != "XUndef":
                 self.fail("to-base-units:raises:" + r[1], f"Q({m}, {d}).to_base_units() raised {r[1]}")
@@ -1041,7 +1051,7 @@ def run(ck):
                 q = ureg.Quantity(F(rng.randint(1, 60)), n)
                 try:
                     b = q.to_base_units()
-                    if not close(b.to(n).magnitude, q.magnitude):
+                    if not close(b.to(n).magnitude, q.magnitude, exact=False):
                         fails.append(("to-base-units:value", f"{q.magnitude} {n} under {sysname}", {"unit": n, "system": sysname}))
                 except Exception as e:      # noqa: BLE001
                     fails.append(("to-base-units:raises:" + xerr(e), f"{n} under {sysname}", {"unit": n, "system": sysname}))
